@@ -70,5 +70,5 @@ def local_call(p):
 def domain_branch(p):
     """'host' if the path validates a host name, 'literal' if it enters check_ip, else None (rejected earlier)"""
     if p.calls('is_ascii_domain') or p.calls('is_utf8_domain'): return 'host'
-    if any(e[0] == 'cond' and "!= '['" in e[1] and e[2] is False for e in p.events): return 'literal'
+    if any(e[0] == 'cond' and (("!= '['" in e[1] and e[2] is False) or ("== '['" in e[1] and e[2] is True)) for e in p.events): return 'literal'
     return None
